@@ -29,15 +29,19 @@ LEVEL_NOTE = ("Trusted: Coq kernel, extraction, the harness feature extractor (i
               "Modelled, not verified: character-level item parsing (names, annotations, descriptions, doctest trimming, annotation "
               "compilation) is outside the model and only exercised by the direct evaluation; Examples sub-sections are not modelled "
               "(presence only); Sphinx parameter/attribute counts are an upper bound in the model (duplicate names need character data). "
-              "Known finding C12-F1: the Numpy parser returns no section at all for the empty docstring.")
+              "Totality of that item-level code rests on the direct evaluation alone: it found eight crash families there (annotation "
+              "compilation, attribute look-ups on the parent, tuple indexing into the parent's annotation, the expression builder's error path), "
+              "all repaired by fix: commits and kept as must-pass corpus cases. "
+              "Known finding C12-F1: the Numpy parser returns no section at all for the empty docstring (C12_numpy_plain_text_refuted_F1 / _modulo_known).")
 MODEL = ("Model.C12_docstrings", "run_C12")
 COQ_TARGETS = ["Proofs/C12_docstrings.vo"]
 RULE = ("texts of <=12 lines (some longer) assembled from section keywords, separators, indentation levels, item syntaxes and prose: "
         "(a) exhaustive sequences of <=3 line classes (thorough: <=4) from a 13-letter alphabet per style, (b) seeded random fragment sequences, "
         "(c) structured mostly-valid docstrings per style with seeded perturbations (dropped blank lines, shifted indents), "
         "(d) a malformed stream (tabs, CR, FF, NUL, non-ASCII spaces and letters, very deep indentation, very long lines); "
-        "x parser options: all 2^8/2^3/2^1 combinations on a rotating subset, random combinations elsewhere; x six parents "
-        "(None, Module, Class.__init__ Function, Function, property Attribute, Function returning None). "
+        "x parser options: all 2^8/2^3/2^1 combinations on a rotating subset, random combinations elsewhere; x eleven parents "
+        "(None, Module, Class.__init__ Function, Function, property Attribute, Function returning None, a visited module with unresolvable and "
+        "cyclic alias members, and visited functions/property whose return annotations are real tuple / Generator / Iterator expressions). "
         "non-trivial = the model yields something other than a single text section; distinct by (style, options, parent, text)")
 TRUSTED = ["abstraction: harness/props/c12.py:features maps each line of Docstring.lines to 15 integers using Python's str methods and "
            "this file's own copies of _RE_ADMONITION, _RE_PARAMETER, the _section_kind tables and the Sphinx field-name sets",
@@ -391,23 +395,6 @@ def F1_gap(style, lines) -> bool:
     return style == "numpy" and all(not l.strip() for l in lines)
 
 
-NO_FILEPATH_PARENTS = ("module", "module-alias", "function-tuple", "generator", "iterator", "property-tuple")
-
-
-def crash_finding(style, r, parent_kind) -> str | None:
-    """Classify an exception of the implementation against the known crash findings (item-level code the model does not
-    cover). C12-F8: the error path of expressions.safe_get_expression raises BuiltinModuleError when the expression
-    of an annotation cannot be built and the parent's module has no filepath. Input predicate: google/numpy style and a
-    parent that lives in an in-memory module; plus the raising site. Anything else is a new violation."""
-    if r["status"] != "err" or style == "sphinx" or r["error"] != "BuiltinModuleError":
-        return None
-    frames = r.get("frames", [])
-    if parent_kind in NO_FILEPATH_PARENTS and r["where"] == "filepath" \
-            and "safe_get_expression" in frames and "parse_docstring_annotation" in frames:
-        return "C12-F8"
-    return None
-
-
 # ---------------------------------------------------------------- evaluation of a batch of cases
 def evaluate(ctx, cases, stream):
     """cases: list of (style, text, opts, parent_kind)."""
@@ -467,14 +454,12 @@ def evaluate(ctx, cases, stream):
                 if not sections_agree(style, exp, r["canon"]):
                     ctx.tie_failure("correspondence", f"{style}: sections(model) vs Docstring.parse",
                                     {"model": exp, "impl": r["canon"]}, case)
-            elif crash_finding(style, r, pk):
-                ctx.count("correspondence_skipped_known_crash")      # building annotation expressions is outside the model
             elif r["status"] != "ok":
                 ctx.tie_failure("correspondence", f"{style}: model returns sections, implementation {r['status']} {r['error']}",
                                 {"model": mo[2]}, case)
         # direct evaluation of the property on the implementation
         for p in r["problems"]:
-            ctx.property_failure(case, {"problem": p, "lines": [l[:200] for l in lines[:14]]}, finding=crash_finding(style, r, pk))
+            ctx.property_failure(case, {"problem": p, "lines": [l[:200] for l in lines[:14]]})
         if r["status"] == "ok" and r["canon"] is not None and is_plain(style, lines, opts, pk):
             ctx.count("plain_cases")
             want = plain_expectation(style, lines, opts, pk)
@@ -672,8 +657,6 @@ def known_witness(ctx):
         r = run_impl(style, witness_text(w), w.get("options", {}), w.get("parent", "none"))
         if fid == "C12-F1":
             ctx.witness(fid, r["status"] == "ok" and r["canon"] == [])
-        else:
-            ctx.witness(fid, crash_finding(style, r, w.get("parent", "none")) == fid)
 
 
 def corpus_cases():
@@ -745,8 +728,6 @@ def search(ctx):
             ctx.count("hangs")
         cj = {"style": style, "text": text, "options": opts, "parent": pk}
         for p in r["problems"]:
-            if crash_finding(style, r, pk):
-                continue
             ctx.property_failure(cj, {"problem": p, "lines": [l[:200] for l in r["lines"][:14]]})
             return True
         if r["canon"] is not None and is_plain(style, r["lines"], opts, pk):
